@@ -49,7 +49,7 @@ type decWorld struct{}
 func (decWorld) Name() string { return "W-DEC" }
 
 var decFaultKinds = []string{"net.bitflip", "net.bytesub", "net.multi", "net.truncate", "net.extend", "net.leninflate", "net.concat",
-	"byz.tree", "byz.tree", "json.member", "json.member", "net.nest", "net.pad", "net.hdr", "net.splice"}
+	"byz.tree", "byz.tree", "json.member", "json.member", "net.nest", "net.pad", "net.hdr", "net.splice", "byz.members"}
 
 var decMsgKinds = []string{"cose", "cose", "cbor", "cbor", "json", "json", "swcbor", "swjson", "shapecbor", "shapejson"}
 
@@ -131,11 +131,16 @@ func (decWorld) Gen(prop, tier string, idx int, r *Rng) *Trace {
 				k := kinds[r.Intn(len(kinds))]
 				switch k {
 				case "byz.tree", "json.member":
-					fo = Op{K: "fault", F: k, A: r.Intn(96), B: r.Intn(48)}
+					fo = Op{K: "fault", F: k, A: r.Intn(96), B: r.Intn(60)}
+					if r.Chance(1, 3) {
+						fo.A = 0 // the root of the tree
+					}
 				case "net.nest":
 					fo = Op{K: "fault", F: k, A: []int{10, 100, 1000, 5000, 20000, 100000}[r.Intn(6)], B: r.Intn(6), C: r.Intn(64)}
 				case "net.pad":
 					fo = Op{K: "fault", F: k, A: []int{100, 5000, 60000}[r.Intn(3)], B: r.Intn(256), C: r.Intn(64)}
+				case "byz.members":
+					fo = Op{K: "fault", F: k, A: []int{30, 300, 3000, 12000}[r.Intn(4)]}
 				default:
 					fo = genNetFault(r, []string{k}, nMsg)
 				}
@@ -310,6 +315,12 @@ func applyDecFault(s *decSlot, op Op, donor []byte, cfg *DecCfg) bool {
 			nb = append(append(append([]byte{}, target[:sp[0]]...), nest...), target[sp[1]:]...)
 			fired = true
 		}
+	case "byz.members":
+		n := op.A
+		if n > 13000 {
+			n = 13000
+		}
+		nb, fired = applyManyMembers(target, n, isJSONKind(s.kind))
 	case "net.pad":
 		n := op.A
 		if n > 65536 {
@@ -811,7 +822,7 @@ func (decWorld) Simplify(o Op) []Op {
 		c.D = 0
 		out = append(out, c)
 	}
-	if o.K == "fault" && (o.F == "net.nest" || o.F == "net.pad") && o.A > 10 {
+	if o.K == "fault" && (o.F == "net.nest" || o.F == "net.pad" || o.F == "byz.members") && o.A > 10 {
 		for _, a := range []int{10, 100, 1000, 10000} {
 			if a < o.A {
 				c := o
